@@ -71,7 +71,10 @@ ResultOK(c, seq) == seq = Want(c)
 \*  and the newest existing state (Holes); a bisection that lands in a hole probes its neighbours, at most
 \*  HoleFactor times each.  When state 1 itself is missing the missing prefix 1 .. First-1 has to be stepped
 \*  over as well: bisecting upwards costs at most Log2(Cur)+1 files of it per attempt, and the lower bound is
-\*  re-established at most PrefixRounds(c) times (once per halving of the populated span First .. Cur).
+\*  re-established at most PrefixRounds(c) times (once per halving of the populated span First .. Cur; findBound
+\*  starts again from 1 after every new upper bound - this product is the only term that is not linear in
+\*  log(range) + holes).  The constants are the ones TLC verifies for the Model on all families of section 5
+\*  (RequestBoundInv); with HoleFactor = 2 the invariant fails, the dense family leaves a slack of 2.
 CeilLog2(n) == CHOOSE k \in 0 .. 30 : 2^k >= n /\ (k = 0 \/ 2^(k-1) < n)
 Span(c)     == Cur(c) - First(c) + 1
 Holes(c)    == Span(c) - Cardinality(c.present)             \* = Cardinality({n \in First(c) .. Cur(c) : ~Has(c, n)})
